@@ -71,7 +71,8 @@ impl AsyncFileSystem for AsyncPhysicalFS {
             self.get_path(path)
                 .read_dir()
                 .await?
-                .map(|entry| entry.unwrap().file_name().into_string().unwrap()),
+                .filter_map(|entry| futures::future::ready(entry.ok()))
+                .map(|entry| entry.file_name().to_string_lossy().into_owned()),
         );
         Ok(entries)
     }
@@ -82,8 +83,11 @@ impl AsyncFileSystem for AsyncPhysicalFS {
             Ok(()) => Ok(()),
             Err(e) => match e.kind() {
                 ErrorKind::AlreadyExists => {
-                    let metadata = async_std::fs::metadata(&fs_path).await.unwrap();
-                    if metadata.is_dir() {
+                    let is_dir = async_std::fs::metadata(&fs_path)
+                        .await
+                        .map(|metadata| metadata.is_dir())
+                        .unwrap_or(false);
+                    if is_dir {
                         return Err(VfsError::from(VfsErrorKind::DirectoryExists));
                     }
                     Err(VfsError::from(VfsErrorKind::FileExists))
